@@ -192,6 +192,27 @@ structure ZipLocal where
   extras : List ZipExtra
 deriving Repr, DecidableEq
 
+/-- the payload step of one local file (zip.go:453-490): uncompressed, `compressed` length, bytes to skip.
+    Stored: `FieldFormatOrRawLen` over `compressed_size` bytes.  Deflated: `TryFieldReaderRangeFormat("uncompressed", d.Pos(),
+    compressedLimit, flate.NewReader, …)` = `io.ReadAll` of the inflater over the window of `compressedLimit` bytes
+    (`compressedLimit` = compressed_size, or everything left when that is 0 = streamed member), whatever the inflater returns is
+    the `uncompressed` field: there is NO bound on the output length or on output length / window length in this code.
+    `inflate off window` = (bytes consumed, output), or failure. -/
+def zipBody (inflate : Nat → Bytes → Option (Nat × Bytes)) (off method csize : Nat) (rest : Bytes) : Option (Option Bytes × Option Nat × Nat) :=
+  if method = 0 then (takeN csize rest).map (fun x => (some x.1, none, csize))
+  else if method = 8 then
+    let limit := if csize = 0 then rest.length else csize
+    match takeN limit rest with
+    | none => none                                              -- TryBitBufRange fails: error dropped, nothing shown …
+    | some (win, _) =>
+      match inflate off win with
+      | some (used, out) =>
+        let cz := if csize = 0 then used else csize
+        (takeN cz rest).map (fun _ => (some out, some cz, cz))
+      | none => (takeN csize rest).map (fun _ => (none, some csize, csize))
+  else if csize ≠ 0 then (takeN csize rest).map (fun _ => (none, some csize, csize))
+  else some (none, none, 0)
+
 /-- one local file at byte offset `off` of the whole buffer (zip.go:411-500). `inflate off bytes` = what the
     deflate reader yields on the bytes from the payload start: (bytes consumed, output), or failure. -/
 def zipLocal (inflate : Nat → Bytes → Option (Nat × Bytes)) (file : Bytes) (off : Nat) : P ZipLocal :=
@@ -218,20 +239,7 @@ def zipLocal (inflate : Nat → Bytes → Option (Nat × Bytes)) (file : Bytes) 
     | .ok xs =>
       let csize := f 18 4
       -- payload
-      let body : Option (Option Bytes × Option Nat × Nat) :=          -- uncompressed, `compressed` length, bytes to skip
-        if method = 0 then (takeN csize rest).map (fun x => (some x.1, none, csize))
-        else if method = 8 then
-          let limit := if csize = 0 then rest.length else csize
-          match takeN limit rest with
-          | none => none                                              -- TryBitBufRange fails: error dropped, nothing shown …
-          | some (win, _) =>
-            match inflate off win with
-            | some (used, out) =>
-              let cz := if csize = 0 then used else csize
-              (takeN cz rest).map (fun _ => (some out, some cz, cz))
-            | none => (takeN csize rest).map (fun _ => (none, some csize, csize))
-        else if csize ≠ 0 then (takeN csize rest).map (fun _ => (none, some csize, csize))
-        else some (none, none, 0)
+      let body := zipBody inflate off method csize rest
       match body with
       | none => .err
       | some (unc, clen, skip) =>
